@@ -160,11 +160,13 @@ pub struct Observed {
     pub running: bool,
     /// the instruction after the one that was stepped
     pub expected_cursor: usize,
+    /// the operands that were pending beneath the operation's own are still there, unchanged
+    pub beneath_ok: bool,
 }
 
 /// one matrix entry in a fresh world: operands materialised through the data interface, the single
 /// instruction appended, stepped once
-pub fn run_entry<D: GD>(d: &mut D, instr: Instruction, l: Option<&Val>, r: &Val) -> Result<Observed, String> {
+pub fn run_entry<D: GD>(d: &mut D, instr: Instruction, l: Option<&Val>, r: &Val, retain_first: bool) -> Result<Observed, String> {
     let e = |x: garnish_lang_simple_data::DataError| format!("{:?}", x);
     // instruction 0 is the target of expression values (jump entry 0), 1 is the instruction under test
     d.push_to_jump_table(0).map_err(e)?;
@@ -175,6 +177,9 @@ pub fn run_entry<D: GD>(d: &mut D, instr: Instruction, l: Option<&Val>, r: &Val)
     // the current input `$` is a value no operation under test produces: a result that is `$` instead of unit shows
     let input = d.add_number(garnish_lang_simple_data::SimpleNumber::Integer(424_242)).map_err(e)?;
     d.push_value_stack(input).map_err(e)?;
+    // one finished value is pending beneath the operation's own operands
+    let beneath = d.add_number(garnish_lang_simple_data::SimpleNumber::Integer(31_337)).map_err(e)?;
+    d.push_register(beneath).map_err(e)?;
     let mut laddr = 0;
     if let Some(l) = l {
         laddr = materialise(d, l).map_err(e)?;
@@ -183,6 +188,13 @@ pub fn run_entry<D: GD>(d: &mut D, instr: Instruction, l: Option<&Val>, r: &Val)
     let raddr = materialise(d, r).map_err(e)?;
     d.push_register(raddr).map_err(e)?;
     d.set_instruction_cursor(1).map_err(e)?;
+    if retain_first {
+        // BasicGarnishData: a host that may compact inside its callback has put what was built so far (here: the
+        // operands too) into the retained prefix
+        if let Some(b) = (d as &mut dyn std::any::Any).downcast_mut::<crate::simdata::BasicW>() {
+            b.retain_all_current_data();
+        }
+    }
     let depth_before = d.get_register_len();
     let res = step(d);
     let running = res == StepResult::Running;
@@ -195,7 +207,9 @@ pub fn run_entry<D: GD>(d: &mut D, instr: Instruction, l: Option<&Val>, r: &Val)
     };
     let depth_after = d.get_register_len();
     let top = if depth_after > 0 { d.get_register(depth_after - 1).map(|a| read_val(d, a)) } else { None };
-    Ok(Observed { status, top, depth_before, depth_after, laddr: if l.is_some() { laddr } else { raddr }, raddr, cursor_after, running, expected_cursor: 2 })
+    // only judged when the step succeeded (an Err may legitimately leave operands consumed)
+    let beneath_ok = status != Status::Ok || d.get_register(0).map(|a| read_val(d, a)) == Some(Val::Int(31_337));
+    Ok(Observed { status, top, depth_before, depth_after, laddr: if l.is_some() { laddr } else { raddr }, raddr, cursor_after, running, expected_cursor: 2, beneath_ok })
 }
 
 // -------------------------------------------------------------------------------------------
@@ -243,11 +257,11 @@ pub fn record() -> Value {
         for basic in [false, true] {
             let (status, calls) = if basic {
                 let mut d = BasicW::create(Host::new(HostScript::default()), &Knobs::default()).unwrap();
-                let o = run_entry(&mut d, instr, l, r);
+                let o = run_entry(&mut d, instr, l, r, false);
                 (o.map(|o| o.status), d.host().log.iter().filter(|c| matches!(c, HostCall::Defer { .. })).count())
             } else {
                 let mut d = SimpleW::create(Host::new(HostScript::default()), &Knobs::default()).unwrap();
-                let o = run_entry(&mut d, instr, l, r);
+                let o = run_entry(&mut d, instr, l, r, false);
                 (o.map(|o| o.status), d.host().log.iter().filter(|c| matches!(c, HostCall::Defer { .. })).count())
             };
             let class = match (&status, calls) {
@@ -308,6 +322,8 @@ pub enum HostMode {
     /// accepting, and after an accepted Apply / EmptyApply the host leaves the cursor on the next instruction
     /// (what a host that ran an expression of its own inside the callback leaves behind)
     AcceptingNested,
+    /// BasicGarnishData: the host compacts the store inside the callback, then declines
+    DecliningCompacting,
 }
 
 #[derive(Clone, Debug, Serialize, Deserialize)]
@@ -329,6 +345,7 @@ fn script_for(mode: HostMode) -> HostScript {
     let mut s = HostScript::default();
     s.defer_default = Some(match mode {
         HostMode::Absent | HostMode::Declining => Answer::Decline,
+        HostMode::DecliningCompacting => Answer::Compact(Box::new(Answer::Decline)),
         HostMode::Accepting | HostMode::AcceptingNested => Answer::Unique,
         HostMode::Failing => Answer::Fail,
     });
@@ -383,7 +400,7 @@ fn judge(instr: Instruction, lt: Option<GarnishDataType>, rt: GarnishDataType, m
                         return Some(("C08.P6.failing-host-ignored".into(), format!("{label}: the callback returned Err but the step returned Ok")));
                     }
                 }
-                HostMode::Absent | HostMode::Declining => {
+                HostMode::Absent | HostMode::Declining | HostMode::DecliningCompacting => {
                     if o.status != Status::Ok {
                         return Some(("C08.P3.declined-is-not-ok".into(), format!("{label}: host declined, step returned {:?}", o.status)));
                     }
@@ -408,6 +425,9 @@ fn judge(instr: Instruction, lt: Option<GarnishDataType>, rt: GarnishDataType, m
             }
             // whatever the host answered, the program goes on with the instruction that follows (matrix entries:
             // the operation sits at instruction 1 with two more behind it)
+            if !o.beneath_ok {
+                return Some(("C08.P10.operands-beneath-disturbed".into(), format!("{label}: the values that were pending beneath the operation's operands are not what they were")));
+            }
             if o.status == Status::Ok && (!o.running || o.cursor_after != o.expected_cursor) {
                 return Some((
                     "C08.P9.next-instruction".into(),
@@ -449,14 +469,14 @@ fn matrix<D: SimData>(mode: HostMode, instr: Instruction, only: Option<(usize, u
                 // shipped defaults: no resolver / op handler installed, NoOpCompanion
                 if D::IS_BASIC {
                     let mut d = BasicGarnishData::<(), NoOpCompanion>::new(NoOpCompanion::new()).expect("basic");
-                    (run_entry(&mut d, instr, *l, r), None)
+                    (run_entry(&mut d, instr, *l, r, false), None)
                 } else {
                     let mut d = SimpleGarnishData::new();
-                    (run_entry(&mut d, instr, *l, r), None)
+                    (run_entry(&mut d, instr, *l, r, false), None)
                 }
             } else {
                 let mut d = D::create(Host::new(script_for(mode)), &Knobs::default()).expect("world");
-                let o = run_entry(&mut d, instr, *l, r);
+                let o = run_entry(&mut d, instr, *l, r, mode == HostMode::DecliningCompacting);
                 let log = d.host().log.clone();
                 (o, Some(log))
             };
@@ -477,7 +497,7 @@ fn matrix<D: SimData>(mode: HostMode, instr: Instruction, only: Option<(usize, u
             // P5: the absent run is compared with a declining run of the same entry
             let twin = if mode == HostMode::Absent {
                 let mut d = D::create(Host::new(script_for(HostMode::Declining)), &Knobs::default()).expect("world");
-                run_entry(&mut d, instr, *l, r).ok()
+                run_entry(&mut d, instr, *l, r, false).ok()
             } else {
                 None
             };
@@ -507,6 +527,7 @@ fn matrix<D: SimData>(mode: HostMode, instr: Instruction, only: Option<(usize, u
         HostMode::Declining => "matrix-host-declining",
         HostMode::Accepting => "matrix-host-accepting",
         HostMode::AcceptingNested => "matrix-host-accepting-after-a-nested-run",
+        HostMode::DecliningCompacting => "matrix-host-compacting-then-declining",
         HostMode::Failing => "matrix-host-failing",
     });
 }
@@ -532,6 +553,8 @@ fn program<D: SimData>(mode: HostMode, src: &str, input: &Val, script: &HostScri
             out.probe("run-on-working-copy-of-the-store");
         }
     }
+    // BasicGarnishData: what a host does after a build (its callback may compact the store)
+    d.retain_now();
     if start(&mut d, built.entry_jump, input).is_err() {
         out.abstain = Some("start-failed".into());
         return;
@@ -557,6 +580,14 @@ fn program<D: SimData>(mode: HostMode, src: &str, input: &Val, script: &HostScri
         let depth_before = d.get_register_len();
         let frames_before = d.frames().len();
         let pc = d.get_instruction_cursor();
+        // for an operation the host will be offered: what is pending beneath its own operands
+        let arity_now = if lt.is_some() { 2 } else { 1 };
+        let beneath_before: Option<Vec<Val>> = match rt {
+            Some(rt) if (is_unary(instr) || is_binary(instr)) && classify(instr, lt, rt) == Some("deferred") && ops.len() >= arity_now => {
+                Some(ops[..ops.len() - arity_now].iter().map(|a| read_val(&d, *a)).collect())
+            }
+            _ => None,
+        };
         let res = step(&mut d);
         th.str(res.tag());
         let status = match &res {
@@ -578,7 +609,15 @@ fn program<D: SimData>(mode: HostMode, src: &str, input: &Val, script: &HostScri
                 let top = if depth_after > 0 { d.get_register(depth_after - 1).map(|a| read_val(&d, a)) } else { None };
                 // a call changes the frame: depth bookkeeping is only judged when no frame was pushed
                 let same_frame = d.frames().len() == frames_before;
-                let o = Observed { status: status.clone(), top, depth_before, depth_after: if same_frame { depth_after } else { depth_before + 1 - if lt.is_some() { 2 } else { 1 } }, laddr, raddr, cursor_after: d.get_instruction_cursor(), running: res == StepResult::Running, expected_cursor: pc + 1 };
+                let o = Observed { status: status.clone(), top, depth_before, depth_after: if same_frame { depth_after } else { depth_before + 1 - if lt.is_some() { 2 } else { 1 } }, laddr, raddr, cursor_after: d.get_instruction_cursor(), running: res == StepResult::Running, expected_cursor: pc + 1,
+                    beneath_ok: match (&beneath_before, same_frame, &status) {
+                        (Some(before), true, Status::Ok) => {
+                            let now = d.operands();
+                            now.len() >= before.len() && now[..before.len()].iter().map(|a| read_val(&d, *a)).collect::<Vec<_>>() == *before
+                        }
+                        _ => true,
+                    },
+                };
                 let calls: Vec<HostCall> = d.host().log[log_before.min(d.host().log.len())..].to_vec();
                 let label = format!("program {:?} step {:?}", src, instr);
                 // the accepting host's marker is numbered by call order
@@ -643,7 +682,7 @@ impl Campaign for C08 {
 
     fn generate(&self, rng: &mut Rng, _tier: Tier, _index: u64) -> Sc08 {
         let basic = rng.chance(1, 2);
-        let mode = *rng.pick(&[HostMode::Declining, HostMode::Declining, HostMode::Accepting, HostMode::Failing, HostMode::AcceptingNested]);
+        let mode = *rng.pick(&[HostMode::Declining, HostMode::Declining, HostMode::Accepting, HostMode::Failing, HostMode::AcceptingNested, if basic { HostMode::DecliningCompacting } else { HostMode::Declining }]);
         let budget = rng.range(2, 24);
         let mut cfg = GenCfg::full(budget);
         cfg.ident_leaf_pct = 50;
@@ -740,7 +779,10 @@ impl Campaign for C08 {
         // workload A: the complete matrix, in every run of the check
         let mut v = vec![];
         for basic in [false, true] {
-            for mode in [HostMode::Absent, HostMode::Declining, HostMode::Accepting, HostMode::Failing, HostMode::AcceptingNested] {
+            for mode in [HostMode::Absent, HostMode::Declining, HostMode::Accepting, HostMode::Failing, HostMode::AcceptingNested, HostMode::DecliningCompacting] {
+                if mode == HostMode::DecliningCompacting && !basic {
+                    continue;
+                }
                 for i in BINARY.iter().filter(|i| **i != Instruction::Invalid).chain(UNARY.iter()) {
                     v.push(Sc08::Matrix { basic, mode, instr: format!("{:?}", i), only: None });
                 }
